@@ -28,7 +28,7 @@ HERE = os.path.dirname(os.path.dirname(os.path.abspath(__file__)))
 REPO = os.environ.get("VERIF_REPO", "/repo")
 
 CHECKS_FOR = {
-    "msmart/lan.py": ["C05", "C02", "C03", "C04", "C06", "C07", "C08", "C09", "C01"],
+    "msmart/lan.py": ["C05", "C02", "C03", "C04", "C06", "C07", "C08", "C09", "C01", "C19"],      # (Security.udpid lives here and serves discovery)
     "msmart/frame.py": ["C12", "C13", "C14", "C11"],
     "msmart/device/AC/command.py": ["C11", "C10", "C12", "C13", "C14", "C15", "C16", "C20"],
     "msmart/device/AC/device.py": ["C01", "C10", "C11", "C16", "C14", "C13", "C15", "C12", "C20"],
